@@ -30,6 +30,15 @@ DetSum(D, S) == IF S = {} THEN 0 ELSE LET e == CHOOSE e \in S : TRUE IN e[2] * P
 \* permutations with their signs, tabulated once (a constant-level definition)
 PermSigns == [n \in 0..4 |-> {<<p, Sign(n, p)>> : p \in Perms(n)}]
 DetL(D) == DetSum(D, PermSigns[D.r])
+\* complex Leibniz determinant of D + i Di
+RECURSIVE CProdOver(_, _, _, _)
+CProdOver(D, Di, p, i) == IF i >= D.r THEN <<1, 0>> ELSE CMulP(<<At(D, i, p[i]), At(Di, i, p[i])>>, CProdOver(D, Di, p, i + 1))
+RECURSIVE CDetSum(_, _, _)
+CDetSum(D, Di, S) == IF S = {} THEN <<0, 0>> ELSE LET e == CHOOSE e \in S : TRUE
+                                                     t == CProdOver(D, Di, e[1], 0)
+                                                     r == CDetSum(D, Di, S \ {e})
+                                                 IN <<e[2] * t[1] + r[1], e[2] * t[2] + r[2]>>
+CDetL(D, Di) == CDetSum(D, Di, PermSigns[D.r])
 ReplaceCol(D, j, v) == Mk(D.r, D.c, LAMBDA a, c : IF c = j THEN v[a + 1] ELSE At(D, a, c))
 Cramer(D, v) == LET dd == DetL(D) IN [j \in RowsN(D.r) |-> Norm(DetL(ReplaceCol(D, j, v)), dd)]
 
@@ -113,6 +122,18 @@ LawsValue == pc = "fact" /\ st.k = 0 =>
        /\ (Nonsingular => LET L == IAbs(orc.det)
                               xs == [k \in 1..B.n |-> orc.x[k - 1][1] * (L \div orc.x[k - 1][2])]
                           IN ResidualZero(D, xs, L, b0) /\ ~ResidualZero(D, [xs EXCEPT ![1] = xs[1] + 1], L, b0))
+       \* the Gaussian-integer versions of the two oracles: against the complex Leibniz determinant of D + i Y, and
+       \* against the real ones on D, iD and rotated right-hand sides
+       /\ LET Y == ToDense(Other(B))
+              Z == New(B.n, B.n, 0)
+              zv == [k \in 1..B.n |-> 0]
+          IN /\ CDetFF(D, Y) = CDetL(D, Y)
+             /\ CDetFF(D, Z) = <<orc.det, 0>>
+             /\ (Nonsingular => LET L == IAbs(orc.det)
+                                    xs == [k \in 1..B.n |-> orc.x[k - 1][1] * (L \div orc.x[k - 1][2])]
+                                IN /\ ResidualZeroCx(D, Z, xs, zv, L, b0, zv) /\ ResidualZeroCx(D, Z, zv, xs, L, zv, b0)
+                                   /\ ResidualZeroCx(Z, D, xs, zv, L, zv, b0)
+                                   /\ ~ResidualZeroCx(Z, D, xs, zv, L, b0, zv) /\ ~ResidualZeroCx(D, Z, xs, [zv EXCEPT ![1] = 1], L, b0, zv))
 
 \* spec -> implementation: one case per initial state
 EmitCase == (Emit /\ pc = "fact" /\ st.k = 0) => PrintT(<<"CASE", ToJson([kind |-> "lu", band |-> B, b |-> b0])>>)
